@@ -4,6 +4,7 @@ import Falcon.Model.Zp
 import Falcon.Lemmas.ZpZMod
 import Falcon.Lemmas.ZpProduct
 import Falcon.Lemmas.BabaiIdem
+import Falcon.Lemmas.NttBreadthFirst
 
 /-!
 # C17 — Babai size reduction preserves the NTRU equation; the 32-bit path multiplies exactly
@@ -92,6 +93,11 @@ def invPassM (m : Nat) : List Nat → List Nat → Bool
   | a :: as, b :: bs => (a * b % m == 1) && decide (a < m) && decide (b < m) && invPassM m as bs
   | [], [] => true
   | _, _ => false
+
+/-- the Z_p forward transform of the model is the breadth-first loop nest of the Rust code (stage with m blocks, twiddle
+    `psi_rev[m + i]` for block i), for every n = 2^d -/
+theorem zp_ntt_is_the_breadth_first_loop_nest (d : Nat) (a : List Nat) (ha : a.length = 2 ^ d) :
+    Zp.ntt d a = FftFlt.nttBF Zp.zpOps Zp.T d a := Zp.ntt_eq_BF d a ha
 
 /-- **a second reduction is the identity, for the reductions as modelled** (the floating-point quotient computation
     included, bit for bit what the Rust code does): if `babai_reduce_bigint` returns Ok with (F', G'), reducing (F', G')
